@@ -45,7 +45,11 @@ def main():
     path = '/verif/DESIGN.md'
     lines = open(path).read().split('\n')
     n = 0
+    start = next(i for i, line in enumerate(lines) if line.startswith('### 6.2'))
+    end = next(i for i, line in enumerate(lines) if line.startswith('### 6.3'))
     for i, line in enumerate(lines):
+        if not start < i < end:
+            continue
         m = re.match(r'\| (C\d\d) \|', line)
         if not m or m.group(1) not in q:
             continue
